@@ -53,6 +53,7 @@ struct sreal {
 #endif
   // an operand that was never given a value (default-constructed) becomes a leaf 0.0 on first use
   int nid() const { return id >= 0 ? id : leaf(v); }
+  sreal &operator=(double x) { v = x; id = leaf(x); return *this; }
   sreal operator-() const { return node(T_NEG, nid(), -1); }
   sreal &operator+=(sreal const &b) { sreal r = node(T_ADD, nid(), b.nid()); v = r.v; id = r.id; return *this; }
   sreal &operator-=(sreal const &b) { sreal r = node(T_SUB, nid(), b.nid()); v = r.v; id = r.id; return *this; }
